@@ -93,6 +93,14 @@ public:
     SmallString<256> path(filename);
     llvm::sys::fs::make_absolute(workingDirectory, path);
 
+    // Bound the include nesting, so a file that (transitively) includes itself
+    // is diagnosed instead of recursing without bound.
+    const size_t maxIncludeDepth = 64;
+    if (forToken && includeStack.size() >= maxIncludeDepth) {
+      error("include nesting too deep", *forToken);
+      return false;
+    }
+
     // Load the file data.
     StringRef forFilename = includeStack.empty() ? filename :
         getCurrentFilename();
